@@ -122,6 +122,23 @@ def pcgls_preconditioner(c, branch, form='matrix'):
         config.MAX_DIM_INV = old
 
 
+def cgls_converged(c, m, n, form, shifted):
+    """the REAL CGLS (public constructor, generous iteration budget) run to convergence from a random start vector on over- and UNDER-determined systems, with
+    and without shift: the returned point solves (A^T A + shift I) x = A^T b (bounded stand-in: native)"""
+    A = np.array([[c.real(f'A{i}{j}') for j in range(n)] for i in range(m)]); b = np.array([c.real(f'b{i}') for i in range(m)])
+    x0 = np.array([c.real(f'x0{j}') for j in range(n)]); shift = (0.3 + abs(c.real('shift'))) if shifted else 0.0
+    Aarg = A if form == 'matrix' else (lambda v, flag: A @ v if flag == 1 else A.T @ v)
+    xs, its = S.CGLS(Aarg, b, x0.copy(), 500, 1e-14, shift).solve()
+    xs = np.asarray(xs, dtype=float).ravel()
+    if shifted or m >= n:
+        c.eq('converged_solution_solves_the_shifted_normal_equations', (A.T @ A + shift * np.eye(n)) @ xs, A.T @ b, tol=1e-7)
+    else:
+        c.eq('converged_solution_solves_the_normal_equations', A.T @ (A @ xs - b), np.zeros(n), tol=1e-7)
+        # without shift the component of the start vector in the null space of A is left alone
+        Pnull = np.eye(n) - np.linalg.pinv(A) @ A
+        c.eq('null_space_component_of_the_start_vector_is_kept', Pnull @ xs, Pnull @ x0, tol=1e-7)
+
+
 def cgls_init(c, form='function', precond=False):
     s, Afun, b, x0, shift, tol, Pfun = _cgls_setup(c, form, precond)
     pre, cond, body, post, names, info = loops.split_loop(type(s).solve, 0)
@@ -319,6 +336,11 @@ def jobs(tier):
         J.append(Job(f'PCGLS.solve:loop0:{form}', lambda c, form=form: cgls_step(c, form, True), 'Pinf', F('PCGLS.solve', 'PCGLS._apply_A', 'PCGLS._apply_Pinv'), _extra))
         for ad in (True, False):
             J.append(Job(f'FISTA.solve:loop0:{form}:adaptive={ad}', lambda c, form=form, ad=ad: fista_step(c, form, ad), 'Pinf', F('FISTA.solve'), _extra))
+    for (m_, n_) in ((6, 3), (3, 6), (4, 4)):
+        for form in ('matrix', 'function'):
+            for sh in (False, True):
+                if tier == 'quick' and form == 'function' and not sh: continue
+                J.append(Job(f'CGLS:real_constructor:run_to_convergence:m={m_}:n={n_}:{form}:shift={sh}', lambda c, m_=m_, n_=n_, f=form, sh=sh: cgls_converged(c, m_, n_, f, sh), 'B', F('CGLS.__init__', 'CGLS.solve'), nnum=4))
     for branch in ('explicit_inverse', 'sparse_solves'):
         for form in ('matrix', 'function'):
             J.append(Job(f'PCGLS:real_constructor:nonsymmetric_sparse_preconditioner:{branch}:{form}', lambda c, br=branch, f=form: pcgls_preconditioner(c, br, f), 'B',
